@@ -1,45 +1,33 @@
 (** LeafCongP.v — hand-written model functions = the definitions tools/gen_leaf.py regenerates from the Rust
     source on every run (coq/Gen/LeafCong.v); see DESIGN.md §12.8. *)
 From Coq Require Import Floats.
-From Srtla Require Import Base Constants LeafCong.
+From Srtla Require Import Base Constants LeafCong LeafTac.
 From Srtla Require Conn.
 From Coq Require Import ZifyBool.
 Local Open Scope Z_scope.
 
 (** ---- congestion rules  <->  Model/Conn.v (C02 C05 C06 C10) ---- *)
 Lemma leaf_ack_classic_ok w inf : fst (Conn.ack_classic w inf) = leaf_ack_classic w inf.
-Proof.
-  unfold Conn.ack_classic, leaf_ack_classic, Conn.WINDOW_CEIL. destruct (w <? _); reflexivity.
-Qed.
+Proof. first [ solve [ unfold Conn.ack_classic, leaf_ack_classic, Conn.WINDOW_CEIL; destruct (w <? _); reflexivity ] | leaf_auto ]. Qed.
 
 Lemma leaf_ack_enhanced_ok c w inf start now :
   let r := Conn.ack_enhanced c w inf in
   (snd (fst r), Conn.fast (fst (fst r))) = leaf_ack_enhanced w inf (Conn.fast c) start now.
-Proof.
-  cbn zeta. unfold Conn.ack_enhanced, Conn.ack_classic, leaf_ack_enhanced, Conn.WINDOW_CEIL.
-  destruct (w <? sat_mul_i32 inf WINDOW_MULT); cbn [fst snd Conn.fast];
-  repeat match goal with |- context [if ?b then _ else _] => destruct b eqn:? end; try reflexivity; try discriminate.
-Qed.
+Proof. first [ solve [ cbn zeta; unfold Conn.ack_enhanced, Conn.ack_classic, leaf_ack_enhanced, Conn.WINDOW_CEIL; destruct (w <? sat_mul_i32 inf WINDOW_MULT); cbn [fst snd Conn.fast];
+  repeat match goal with |- context [if ?b then _ else _] => destruct b eqn:? end; try reflexivity; try discriminate ] | leaf_auto ]. Qed.
 
 Lemma leaf_ack_global_ok c :
   Conn.window (Conn.handle_srtla_ack_global c) = leaf_ack_global (Conn.window c) (Conn.connected c) (Conn.last_recv c).
-Proof.
-  unfold Conn.handle_srtla_ack_global, leaf_ack_global, Conn.WINDOW_CEIL.
-  destruct (Conn.connected c), (Conn.last_recv c); reflexivity.
-Qed.
+Proof. first [ solve [ unfold Conn.handle_srtla_ack_global, leaf_ack_global, Conn.WINDOW_CEIL; destruct (Conn.connected c), (Conn.last_recv c); reflexivity ] | leaf_auto ]. Qed.
 
 Lemma leaf_cong_nak_ok c w now :
   let '(g, w', _) := Conn.cong_nak c w now in
   (Conn.nak_count g, Conn.burst g, Conn.burst_start g, Conn.last_nak g, Conn.consec g, w', Conn.fast g, Conn.fast_start g, true) =
   leaf_cong_handle_nak (Conn.nak_count c) (Conn.burst c) (Conn.burst_start c) (Conn.last_nak c) (Conn.consec c)
                        (Conn.fast c) (Conn.fast_start c) w now.
-Proof.
-  unfold Conn.cong_nak, leaf_cong_handle_nak, Conn.WINDOW_FLOOR. cbn zeta.
-  change FAST_RECOVERY_ENTER_WINDOW with 2000.
-  destruct ((0 <? Conn.last_nak c) && (ssub now (Conn.last_nak c) <? NAK_BURST_WINDOW_MS));
+Proof. first [ solve [ unfold Conn.cong_nak, leaf_cong_handle_nak, Conn.WINDOW_FLOOR; cbn zeta; change FAST_RECOVERY_ENTER_WINDOW with 2000; destruct ((0 <? Conn.last_nak c) && (ssub now (Conn.last_nak c) <? NAK_BURST_WINDOW_MS));
   [destruct (Conn.burst c =? 0)|destruct (NAK_BURST_LOG_THRESHOLD <=? Conn.burst c)];
   cbn [Conn.nak_count Conn.burst Conn.burst_start Conn.last_nak Conn.consec Conn.fast Conn.fast_start];
   destruct (Z.max (w - WINDOW_DECR) (WINDOW_MIN * WINDOW_MULT) <=? 3000);
-  destruct ((Z.max (w - WINDOW_DECR) (WINDOW_MIN * WINDOW_MULT) <=? 2000) && negb (Conn.fast c)); reflexivity.
-Qed.
+  destruct ((Z.max (w - WINDOW_DECR) (WINDOW_MIN * WINDOW_MULT) <=? 2000) && negb (Conn.fast c)); reflexivity ] | leaf_auto ]. Qed.
 
